@@ -747,6 +747,16 @@ def proxy_nontrivial(inp, impl):
 def run_proxy(run, cfg, G):
     for pre in ("proxy", "proxyreply", "proxystream"):
         diff_run(run, G, ["proxy"], pre, proxy_nontrivial, "proxy-" + pre)
+    # traits for which the macro's expansion does not compile (the trait itself is acceptable: primitive / std types,
+    # legal identifiers): "for every trait the macro accepts" fails on such a trait
+    failed = sorted(getattr(run, "corpora", {}).get("px_failed", {}).items())
+    if failed:
+        idx, b = failed[0]
+        path = run.replay_path(f"proxy-expansion-does-not-compile-{idx}")
+        json.dump({"property": run.pid, "kind": "the proxy macro's expansion does not compile for this trait (declarations in the line protocol's notation; the Rust source is module t%d of harness/zvc/src/gen_proxy.rs after `python3 /verif/bin/corpora.py %d %s`)" % (idx, run.seed, run.tier),
+                   "declaration": b["decl"], "rustc": b["error"], "at": b["at"], "traits_failing": [i for i, _ in failed]}, open(path, "w"), indent=1)
+        run.violations.append(("impl", path, ""))
+    run.cov["compile_failures"] = len(failed)
     finish_corr(run, G, [])
     run.cov["programs"] = corpus_sizes(run)["proxy"]
     run.cov["rule"] = ("a corpus of %d proxy traits generated from the seed (methods of 1..4 words/digits, renamed or not; 0..4 parameters of u32 / i64 / bool / &str / String / Option / slice / struct / generic types with optional wire renames; elided and explicit lifetimes; more / oneway), "
